@@ -95,4 +95,15 @@ theorem lalr_consumed_is_viable_prefix {G : EarleyProto.Grammar} {T : LRProto.Ta
     ∃ w, EarleyProto.DerivesSeq G [EarleyProto.Sym.nt start] (consumed ++ w) :=
   LRProto.consumed_is_viable_prefix h (EarleyProto.productiveB_sound hP) h0 hstart hne hTA hinv
 
+/-- **LALR: the error position is the first offending token, in both directions.** (→, `lalr_viable_prefix_shifts`: a prefix of a sentence is consumed
+    without error, for a table with the completeness certificate.) (←, here:) a token prefix the driver consumes without raising begins a sentence
+    of the root symbol — so it never reads past the first token after which no sentence is possible. -/
+theorem lalr_consumed_prefix_begins_sentence {G : EarleyProto.Grammar} {T : LRProto.Table} {A : LR0.Auto} {s0 start : Nat}
+    (hT : LRProto.TableSafe G T s0) (h : LR0.checkLR0 G A = true) (order : List EarleyProto.Rule) (hP : EarleyProto.productiveB G order = true)
+    (h0 : T.start < A.items.length) (hstart : ∀ x ∈ A.kernelOf T.start, x.2 = 0 ∧ x.1.lhs = start ∧ x.1 ∈ G.rules)
+    (hne : ∀ q, q < A.items.length → A.kernelOf q ≠ []) (hTA : LRProto.TableOf T A) (F : Nat) (pre : List Nat) (cfg' : LRProto.Config)
+    (hfeed : LRProto.feedAll T F ⟨[T.start], []⟩ pre = LRProto.Outcome.shifted cfg') :
+    ∃ w, EarleyProto.DerivesSeq G [EarleyProto.Sym.nt start] (pre ++ w) :=
+  LRProto.consumed_prefix_begins_sentence hT h (EarleyProto.productiveB_sound hP) h0 hstart hne hTA F pre cfg' hfeed
+
 end Props.C08
